@@ -65,7 +65,8 @@ def handle (op : String) (as : List (List Nat)) : J :=
     | some μ =>
       let (o, ctx) := parseWith D T (flag as 0) μ (num as 2) (arg as 3)
       outcomeJ o ctx [("builds", .arr (ctx.builds.map fun t => .str (formatToken t))),
-                      ("buildLines", .arr (ctx.builds.map fun t => .num t.lineNo))]
+                      ("buildLines", .arr (ctx.builds.map fun t => .num t.lineNo)),
+                      ("reads", .arr (ctx.reads.map J.num)), ("unexpected", .arr (ctx.unexpected.map J.num))]
   | "pickles" =>
     -- default dialect | uri | src  (fresh counter; parse then compile)
     match MState.init D (arg as 0) with
